@@ -1,4 +1,4 @@
 #!/bin/bash
 # usage: tools/confirm_queue.sh file_with_lines_"ID name"   (3 confirmations in parallel; log per item under /tmp/confirm/)
 mkdir -p /tmp/confirm
-xargs -P3 -L1 bash -c '/verif/tools/confirm_seeded.sh $0 $1 > /tmp/confirm/log-$0-$1.txt 2>&1' < "$1"
+xargs -P${PAR:-3} -L1 bash -c '/verif/tools/confirm_seeded.sh $0 $1 > /tmp/confirm/log-$0-$1.txt 2>&1' < "$1"
